@@ -10,6 +10,7 @@ import (
 	"os"
 	"path/filepath"
 	"sort"
+	"strconv"
 	"strings"
 	"sync/atomic"
 
@@ -105,11 +106,39 @@ func sortLogNamesOldToNew(dirEntries []os.DirEntry) []string {
 	//   audit.log  audit.log.1  audit.log.2  audit.log.3  audit.log.4
 	//   $ test-app /var/log/audit/
 	//   [audit.log.4 audit.log.3 audit.log.2 audit.log.1 audit.log]
+	//
+	// The rotation suffix is compared as a number so that "audit.log.10"
+	// is older than "audit.log.9". Names without a numeric suffix keep
+	// the previous (lexical) ordering among themselves and relative to
+	// numbered names.
 	sort.Slice(oldestToNew, func(i, j int) bool {
+		numI, okI := logRotationNumber(oldestToNew[i])
+		numJ, okJ := logRotationNumber(oldestToNew[j])
+		if okI && okJ && numI != numJ {
+			return numI > numJ
+		}
+
 		return oldestToNew[i] > oldestToNew[j]
 	})
 
 	return oldestToNew
+}
+
+// logRotationNumber returns N for a log file name of the form
+// "audit.log.N" where N is a decimal number.
+func logRotationNumber(name string) (int, bool) {
+	const prefix = "audit.log."
+
+	if !strings.HasPrefix(name, prefix) {
+		return 0, false
+	}
+
+	num, err := strconv.Atoi(name[len(prefix):])
+	if err != nil || num < 0 {
+		return 0, false
+	}
+
+	return num, true
 }
 
 // LogDirReader reads audit logs from a directory and tails the active
